@@ -72,7 +72,7 @@ func (handler AcraBlockHandler) Decrypt(data []byte, context *base.DataProcessor
 // EncryptWithClientID implementation of ContainerHandler method
 func (handler AcraBlockHandler) EncryptWithClientID(clientID, data []byte, context *encryptor.DataEncryptorContext) ([]byte, error) {
 	// skip already encrypted AcraBlock
-	if _, _, err := acrablock.ExtractAcraBlockFromData(data); err == nil {
+	if n, _, err := acrablock.ExtractAcraBlockFromData(data); err == nil && n == len(data) {
 		return data, nil
 	}
 	key, err := context.Keystore.GetClientIDSymmetricKey(clientID)
